@@ -287,12 +287,681 @@ pub mod wavelet {
     }
 }
 
+// ---------------------------------------------------------------------------
+// Large-scale sub-checks (`C17/large-*`): bit-vector length, superblock factor k, number of
+// superblocks, number of matching bits inside one superblock, select arguments, wavelet-matrix text
+// length and run length are pushed across the ladder 255/256/257 ... 2^20+1 (and k up to 65537, i.e.
+// superblocks of 2^21 bits). Cases hold generator parameters and a seed (splitmix64 expansion).
+
+pub mod large {
+    use super::*;
+    use crate::oracles::scale::c071718::{intern, is_ladder, lab, labels, ladder_upto, leak_list, sample_positions, watched, Rng, LADDER};
+
+    /// run lengths used by the run patterns: short ones, the ladder, and the superblock size +-1
+    fn run_len(rng: &mut Rng, s: u64) -> u64 {
+        match rng.below(8) {
+            0 => 1 + rng.below(64),
+            1 => 255 + rng.below(3),
+            2 => 4095 + rng.below(3),
+            3 => 65_535 + rng.below(3),
+            4 => s - 1 + rng.below(3),
+            5 => 2 * s,
+            6 => 70_001,
+            _ => 1 + rng.below(5000),
+        }
+    }
+
+    pub mod rs {
+        use super::*;
+
+        #[derive(Serialize, Deserialize, Debug, Clone, Copy, PartialEq, Eq)]
+        pub enum Pat {
+            AllOnes,
+            AllZeros,
+            /// 15 of 16 bits set
+            Dense,
+            /// 1 of 1024 bits set
+            Sparse,
+            Random,
+            /// one bit set every p bits, p from {7, 8, 255, 256, 257, 65535, 65536} by seed
+            PeriodOnes,
+            /// one bit clear every p bits
+            PeriodZeros,
+            /// alternating runs of ones and zeros, lengths from the ladder and around the superblock size
+            Runs,
+            /// the first three quarters are zero, the rest one (long run of equal superblock ranks)
+            ZerosThenOnes,
+            /// the first three quarters are one, the rest zero
+            OnesThenZeros,
+        }
+
+        pub const PATS: [Pat; 10] =
+            [Pat::AllOnes, Pat::AllZeros, Pat::Dense, Pat::Sparse, Pat::Random, Pat::PeriodOnes, Pat::PeriodZeros, Pat::Runs, Pat::ZerosThenOnes, Pat::OnesThenZeros];
+
+        #[derive(Serialize, Deserialize, Debug, Clone)]
+        pub struct Case {
+            /// number of bits
+            pub n: u32,
+            /// superblock factor (superblock = 32*k bits)
+            pub k: u32,
+            pub pat: Pat,
+            pub seed: u64,
+        }
+
+        /// bytes, bit i = (bytes[i/8] >> (i%8)) & 1 (the block layout of BitVec<u8>); padding bits are zero
+        pub fn expand(c: &Case) -> Vec<u8> {
+            let n = c.n as usize;
+            let s = 32 * c.k as u64;
+            let mut rng = Rng::new(c.seed);
+            let mut bytes = vec![0u8; (n + 7) / 8];
+            let mut set = |i: usize, bytes: &mut Vec<u8>| bytes[i / 8] |= 1 << (i % 8);
+            const PERIODS: [usize; 7] = [7, 8, 255, 256, 257, 65_535, 65_536];
+            match c.pat {
+                Pat::AllOnes => bytes.iter_mut().for_each(|b| *b = 0xff),
+                Pat::AllZeros => {}
+                Pat::Dense => {
+                    for i in 0..n {
+                        if rng.next() % 16 != 0 {
+                            set(i, &mut bytes);
+                        }
+                    }
+                }
+                Pat::Sparse => {
+                    for i in 0..n {
+                        if rng.next() % 1024 == 0 {
+                            set(i, &mut bytes);
+                        }
+                    }
+                }
+                Pat::Random => {
+                    for b in bytes.iter_mut() {
+                        *b = rng.next() as u8;
+                    }
+                }
+                Pat::PeriodOnes | Pat::PeriodZeros => {
+                    let p = PERIODS[(c.seed % 7) as usize];
+                    if c.pat == Pat::PeriodZeros {
+                        bytes.iter_mut().for_each(|b| *b = 0xff);
+                    }
+                    let mut i = p - 1;
+                    while i < n {
+                        if c.pat == Pat::PeriodOnes {
+                            set(i, &mut bytes);
+                        } else {
+                            bytes[i / 8] &= !(1 << (i % 8));
+                        }
+                        i += p;
+                    }
+                }
+                Pat::Runs => {
+                    let mut i = 0usize;
+                    let mut one = c.seed % 2 == 0;
+                    while i < n {
+                        let l = run_len(&mut rng, s) as usize;
+                        let e = (i + l).min(n);
+                        if one {
+                            for j in i..e {
+                                set(j, &mut bytes);
+                            }
+                        }
+                        one = !one;
+                        i = e;
+                    }
+                }
+                Pat::ZerosThenOnes | Pat::OnesThenZeros => {
+                    let cut = n - n / 4;
+                    for i in 0..n {
+                        if (i >= cut) == (c.pat == Pat::ZerosThenOnes) {
+                            set(i, &mut bytes);
+                        }
+                    }
+                }
+            }
+            if n % 8 != 0 {
+                let last = bytes.len() - 1;
+                bytes[last] &= (1u16 << (n % 8)) as u8 - 1;
+            }
+            bytes
+        }
+
+        pub fn check(c: &Case) -> R {
+            watched(serde_json::to_string(c).unwrap_or_default(), || check_inner(c))
+        }
+
+        fn check_inner(c: &Case) -> R {
+            let n = c.n as u64;
+            let k = c.k as usize;
+            ensure!(n >= 1 && n <= (1 << 23) && k >= 1 && k <= 70_000, "harness: n={} k={} outside the supported range", n, k);
+            let s = 32 * k as u64;
+            let bytes = expand(c);
+            let bit = |i: u64| (bytes[(i / 8) as usize] >> (i % 8)) & 1 == 1;
+            let mut bv: BitVec<u8> = BitVec::new_fill(false, n);
+            for (i, &b) in bytes.iter().enumerate() {
+                if b != 0 {
+                    bv.set_block(i, b);
+                }
+            }
+            let rs = RankSelect::new(bv, k);
+            ensure!(rs.k() == k, "k() = {}, constructed with {}; {:?}", rs.k(), k, c);
+            ensure!(rs.bits().len() == n, "bits().len() = {}, expected {}; {:?}", rs.bits().len(), n, c);
+
+            // oracle: positions of the ones and zeros
+            let mut pos1: Vec<u32> = Vec::new();
+            let mut pos0: Vec<u32> = Vec::new();
+            for i in 0..n {
+                if bit(i) {
+                    pos1.push(i as u32);
+                } else {
+                    pos0.push(i as u32);
+                }
+            }
+            let ones_upto = |i: u64| pos1.partition_point(|&p| (p as u64) <= i) as u64; // ones at 0..=i
+            let ones_before = |i: u64| pos1.partition_point(|&p| (p as u64) < i) as u64;
+            let (c1, c0) = (pos1.len() as u64, pos0.len() as u64);
+            let mut rng = Rng::new(c.seed ^ 0xabcdef);
+            let mut pass = Pass::new(n > s);
+
+            // superblock boundaries to probe: all when few, otherwise first/last, around the ladder indices, random
+            let nsb = (n + s - 1) / s;
+            let mut sbs: Vec<u64> = if nsb <= 48 {
+                (0..nsb).collect()
+            } else {
+                let mut v = sample_positions(nsb, &[], &mut rng, 16);
+                v.truncate(80);
+                v.push(nsb - 1);
+                v
+            };
+            sbs.sort_unstable();
+            sbs.dedup();
+            let bounds: Vec<u64> = sbs.iter().map(|b| b * s).collect();
+
+            // rank: every position when affordable, otherwise a sample
+            let per_query = s / 16 + 30;
+            let full = n * per_query <= 12_000_000;
+            let one_rank = |i: u64, ones: u64, pass: &mut Pass| -> Result<(), Stop> {
+                let g = rs.get(i);
+                ensure!(g == bit(i), "get({}) = {} but the bit is {}; {:?}", i, g, bit(i), c);
+                let r1 = rs.rank_1(i);
+                ensure!(r1 == Some(ones), "rank_1({}) = {:?}, expected Some({}); n={} {:?}", i, r1, ones, n, c);
+                let r0 = rs.rank_0(i);
+                ensure!(r0 == Some(i + 1 - ones), "rank_0({}) = {:?}, expected Some({}); n={} {:?}", i, r0, i + 1 - ones, n, c);
+                let within = ones - ones_before(i / s * s);
+                pass.add_if(within > 255, "rank_1 after > 255 ones inside the superblock");
+                pass.add_if(within > 65_535, "rank_1 after > 65535 ones inside the superblock");
+                pass.add_if(ones > 65_535, "rank_1 result > 65535");
+                pass.add_if(i + 1 - ones > 65_535, "rank_0 result > 65535");
+                Ok(())
+            };
+            if full {
+                let mut ones = 0u64;
+                for i in 0..n {
+                    ones += bit(i) as u64;
+                    one_rank(i, ones, &mut pass)?;
+                }
+                pass.add("rank at every position");
+            } else {
+                let budget = (30_000_000 / (s / 8 + 50)).clamp(60, 900) as usize;
+                let mut ps = sample_positions(n, &bounds, &mut rng, budget / 3);
+                if ps.len() > budget {
+                    // keep first/last and an even subsample of the rest
+                    let step = ps.len().div_ceil(budget);
+                    let last = *ps.last().unwrap();
+                    ps = ps.into_iter().step_by(step).collect();
+                    ps.push(last);
+                }
+                for i in ps {
+                    one_rank(i, ones_upto(i), &mut pass)?;
+                }
+                pass.add("rank at sampled positions");
+            }
+            // the alias
+            for i in [0, n / 2, n - 1] {
+                ensure!(rs.rank(i) == Some(ones_upto(i)), "rank({}) = {:?}, expected Some({}); {:?}", i, rs.rank(i), ones_upto(i), c);
+            }
+            // beyond the end
+            for i in [n, n + 1, n + 7, (n + 7) / 8 * 8, (n + 7) / 8 * 8 + 1, (n / s + 1) * s, n + 65_536, u64::MAX] {
+                ensure!(rs.rank_1(i).is_none() && rs.rank_0(i).is_none(), "rank_1({}) = {:?}, rank_0 = {:?} beyond the end (n={}), expected None; {:?}", i, rs.rank_1(i), rs.rank_0(i), n, c);
+            }
+
+            // select: j around 0, the count, the ladder, the counts at the probed superblock boundaries (+ ladder offsets), random
+            let sel_budget = (20_000_000 / (s / 8 + 200)).clamp(80, 1500) as usize;
+            for which in [true, false] {
+                let (pos, cnt) = if which { (&pos1, c1) } else { (&pos0, c0) };
+                let mut js: Vec<u64> = vec![0, 1, 2, 3, cnt.saturating_sub(1), cnt, cnt + 1, cnt + 2, n, n + 1];
+                for &l in LADDER.iter() {
+                    for d in 0..3u64 {
+                        js.push(l + d - 1);
+                    }
+                }
+                let mut prio = js.len();
+                for &b in &bounds {
+                    let before = if which { ones_before(b) } else { b - ones_before(b) };
+                    for d in 0..4u64 {
+                        js.push((before + d).saturating_sub(1));
+                    }
+                    prio = js.len();
+                    for l in [255u64, 256, 257, 65_535, 65_536, 65_537] {
+                        js.push(before + l);
+                    }
+                }
+                let _ = prio;
+                for _ in 0..100 {
+                    js.push(1 + rng.below(cnt.max(1)));
+                }
+                js.retain(|&j| j <= n + 1);
+                js.sort_unstable();
+                js.dedup();
+                if js.len() > sel_budget {
+                    let step = js.len().div_ceil(sel_budget);
+                    let must: Vec<u64> = vec![0, 1, cnt, cnt + 1, n + 1, 65_535, 65_536, 65_537];
+                    let mut t: Vec<u64> = js.iter().copied().step_by(step).collect();
+                    t.extend(must.into_iter().filter(|&j| j <= n + 1));
+                    t.sort_unstable();
+                    t.dedup();
+                    js = t;
+                }
+                for j in js {
+                    let e: Option<u64> = if j == 0 { None } else { pos.get(j as usize - 1).map(|&p| p as u64) };
+                    let g = if which { rs.select_1(j) } else { rs.select_0(j) };
+                    ensure!(g == e, "select_{}({}) = {:?}, expected {:?} ({} such bits); n={} {:?}", which as u8, j, g, e, cnt, n, c);
+                    if let Some(p) = e {
+                        let sb0 = p / s * s;
+                        let before = if which { ones_before(sb0) } else { sb0 - ones_before(sb0) };
+                        let within = j - before;
+                        if which {
+                            pass.add_if(within > 255, "select_1 answer preceded by > 255 ones inside its superblock");
+                            pass.add_if(within > 65_535, "select_1 answer preceded by > 65535 ones inside its superblock");
+                            pass.add_if(j > 65_535, "select_1 argument > 65535");
+                        } else {
+                            pass.add_if(within > 255, "select_0 answer preceded by > 255 zeros inside its superblock");
+                            pass.add_if(within > 65_535, "select_0 answer preceded by > 65535 zeros inside its superblock");
+                            pass.add_if(j > 65_535, "select_0 argument > 65535");
+                        }
+                        pass.add_if(p / s > 65_535, "select answer in a superblock with index > 65535");
+                    }
+                }
+            }
+            for j in [0, 1, c1 / 2, c1, c1 + 1] {
+                let e: Option<u64> = if j == 0 { None } else { pos1.get(j as usize - 1).map(|&p| p as u64) };
+                ensure!(rs.select(j) == e, "select({}) = {:?}, expected {:?}; {:?}", j, rs.select(j), e, c);
+            }
+
+            // classes
+            if is_ladder(n) {
+                pass.add(lab("bits n", n));
+            }
+            if is_ladder(k as u64) || (2047..=2049).contains(&k) {
+                pass.add(lab("k", k as u64));
+            }
+            if is_ladder(nsb) {
+                pass.add(lab("superblocks", nsb));
+            }
+            pass.add_if(n > 65_536, "n > 65536");
+            pass.add_if(n > 1 << 20, "n > 2^20");
+            pass.add_if(n > 1 << 21, "n > 2^21");
+            pass.add_if(s > 65_536, "superblock spans more than 65536 bits");
+            pass.add_if(s > 65_536 && n > s, "superblock spans more than 65536 bits, >= 2 superblocks");
+            pass.add_if(nsb > 65_536, "more than 65536 superblocks");
+            pass.add_if(n % s == 0, "n multiple of 32k");
+            pass.add_if(n % s == 1, "n = 32kj+1");
+            pass.add_if(n % s == s - 1, "n = 32kj-1");
+            pass.add_if(n % 8 != 0, "last byte padded");
+            // longest run of superblocks without a one / without a zero (equal superblock ranks)
+            if nsb <= 200_000 {
+                let (mut run1, mut run0, mut best1, mut best0) = (0u64, 0u64, 0u64, 0u64);
+                let mut prev = 0u64;
+                for b in 0..nsb {
+                    let end = ((b + 1) * s).min(n);
+                    let o = ones_before(end);
+                    let ones_in = o - prev;
+                    prev = o;
+                    run1 = if ones_in == 0 { run1 + 1 } else { 0 };
+                    run0 = if ones_in == end - b * s { run0 + 1 } else { 0 };
+                    best1 = best1.max(run1);
+                    best0 = best0.max(run0);
+                }
+                pass.add_if(best1 > 255 && c1 > 0, "run of > 255 all-zero superblocks in a non-zero vector");
+                pass.add_if(best1 > 65_535 && c1 > 0, "run of > 65535 all-zero superblocks in a non-zero vector");
+                pass.add_if(best0 > 255 && c0 > 0, "run of > 255 all-one superblocks in a non-constant vector");
+                pass.add_if(best0 > 65_535 && c0 > 0, "run of > 65535 all-one superblocks in a non-constant vector");
+            }
+            pass.add(match c.pat {
+                Pat::AllOnes => "pattern all ones",
+                Pat::AllZeros => "pattern all zeros",
+                Pat::Dense => "pattern dense",
+                Pat::Sparse => "pattern sparse",
+                Pat::Random => "pattern random",
+                Pat::PeriodOnes => "pattern periodic ones",
+                Pat::PeriodZeros => "pattern periodic zeros",
+                Pat::Runs => "pattern runs",
+                Pat::ZerosThenOnes => "pattern zeros then ones",
+                Pat::OnesThenZeros => "pattern ones then zeros",
+            });
+            Ok(pass)
+        }
+
+        /// k ladder: the common ladder up to 65537 plus 2047..2049 (32k = 65536 bits)
+        pub fn k_ladder() -> Vec<u64> {
+            let mut v = ladder_upto(65_537);
+            v.extend([2047, 2048, 2049]);
+            v.sort_unstable();
+            v
+        }
+
+        pub fn enumerate(t: Tier) -> Box<dyn Iterator<Item = Case>> {
+            let mut v: Vec<Case> = Vec::new();
+            let mut q = 0u64;
+            let reps: u64 = if t == Tier::Quick { 1 } else { 4 };
+            for rep in 0..reps {
+                let mut push = |n: u64, k: u64, pat: Pat, v: &mut Vec<Case>| {
+                    q += 1;
+                    v.push(Case { n: n as u32, k: k as u32, pat, seed: 0xc17 + q * 7907 + rep * 49_979_687 });
+                };
+                // (1) every ladder length, small k (1, 3, 8, 40 rotating): three patterns each (all when thorough)
+                for (i, &n) in LADDER.iter().enumerate() {
+                    let npat = if t == Tier::Thorough { 10 } else { 3 };
+                    for j in 0..npat {
+                        let k = [1u64, 3, 8, 40][(i + j) % 4];
+                        push(n, k, PATS[(i * 3 + j + rep as usize) % 10], &mut v);
+                    }
+                }
+                // (2) every ladder k with >= 2 superblocks (n = 2*32k + 37, and 3*32k exactly / -1 / +1 rotating): dense
+                //     patterns so that more than 255 / 65535 matches precede the answer inside one superblock
+                for (i, &k) in k_ladder().iter().enumerate() {
+                    let s = 32 * k;
+                    let n = [2 * s + 37, 3 * s, 2 * s - 1, 2 * s + 1][i % 4];
+                    push(n, k, Pat::AllOnes, &mut v);
+                    push(n, k, Pat::AllZeros, &mut v);
+                    let extra = if t == Tier::Thorough { 8 } else { 2 };
+                    for j in 0..extra {
+                        push(n, k, [Pat::Dense, Pat::Runs, Pat::Random, Pat::PeriodZeros, Pat::PeriodOnes, Pat::ZerosThenOnes, Pat::OnesThenZeros, Pat::Sparse][(i + j) % 8], &mut v);
+                    }
+                }
+                // (3) number of superblocks across the ladder (k = 1, 2): last superblock partial, full, one bit
+                for (i, &nsb) in ladder_upto(65_537).iter().enumerate() {
+                    let k = 1 + (i as u64 % 2);
+                    let s = 32 * k;
+                    let n = [nsb * s - 5, nsb * s, (nsb - 1) * s + 1][i % 3];
+                    push(n, k, [Pat::Runs, Pat::ZerosThenOnes, Pat::OnesThenZeros, Pat::Sparse, Pat::Dense][(i + rep as usize) % 5], &mut v);
+                    if nsb > 65_000 || t == Tier::Thorough {
+                        push(n, k, Pat::ZerosThenOnes, &mut v);
+                        push(n, k, Pat::OnesThenZeros, &mut v);
+                    }
+                }
+                // (4) beyond 2^21 bits with k = 1: more than 65536 superblocks, runs of more than 65535 equal superblock ranks
+                for (n, pat) in [((1u64 << 22) + 1, Pat::ZerosThenOnes), ((1 << 22) + 1, Pat::OnesThenZeros), ((1 << 21) + 100, Pat::Random), ((1 << 21) - 1, Pat::Sparse), ((1 << 22) - 1, Pat::AllOnes)] {
+                    push(n, 1, pat, &mut v);
+                }
+            }
+            Box::new(v.into_iter())
+        }
+
+        pub fn strat(_t: Tier) -> BoxedStrategy<Case> {
+            let near_n: Vec<u64> = LADDER.iter().copied().filter(|&v| v <= 131_073).collect();
+            let near_k: Vec<u64> = k_ladder().into_iter().filter(|&v| v <= 8193).collect();
+            let n = prop_oneof![
+                4 => 1000u32..=100_000,
+                3 => (proptest::sample::select(near_n), -3i64..=3).prop_map(|(v, d)| (v as i64 + d) as u32),
+                1 => 100_000u32..=1_100_000,
+            ];
+            let k = prop_oneof![
+                3 => 1u32..=64,
+                2 => (proptest::sample::select(near_k), -2i64..=2).prop_map(|(v, d)| (v as i64 + d) as u32),
+                1 => 64u32..=9000,
+            ];
+            (n, k, proptest::sample::select(PATS.to_vec()), any::<u64>()).prop_map(|(n, k, pat, seed)| Case { n, k, pat, seed }).boxed()
+        }
+
+        pub fn must() -> &'static [&'static str] {
+            let mut v = labels("bits n", &LADDER);
+            v.extend(labels("k", &k_ladder()));
+            v.extend(labels("superblocks", &ladder_upto(65_537)));
+            v.extend([
+                "n > 2^21",
+                "superblock spans more than 65536 bits, >= 2 superblocks",
+                "more than 65536 superblocks",
+                "rank_1 after > 65535 ones inside the superblock",
+                "select_1 answer preceded by > 65535 ones inside its superblock",
+                "select_0 answer preceded by > 65535 zeros inside its superblock",
+                "select_1 argument > 65535",
+                "select_0 argument > 65535",
+                "select answer in a superblock with index > 65535",
+                "run of > 65535 all-zero superblocks in a non-zero vector",
+                "run of > 65535 all-one superblocks in a non-constant vector",
+                "rank at every position",
+                "rank at sampled positions",
+                "n multiple of 32k",
+                "n = 32kj+1",
+                "n = 32kj-1",
+            ]);
+            leak_list(v)
+        }
+    }
+
+    pub mod wm {
+        use super::*;
+        use crate::props::c17::wavelet::SYMS;
+
+        #[derive(Serialize, Deserialize, Debug, Clone, Copy, PartialEq, Eq)]
+        pub enum Pat {
+            /// one symbol only (which one: seed mod 6)
+            Homopolymer,
+            /// ACGTN$ACGTN$...
+            Periodic,
+            /// runs of one symbol, lengths from the ladder
+            Runs,
+            Random,
+            /// 99 % one symbol
+            Skewed,
+            /// six blocks A..A C..C G..G T..T N..N $..$
+            Sorted,
+            /// the same blocks in reverse order
+            SortedDesc,
+        }
+
+        pub const PATS: [Pat; 7] = [Pat::Homopolymer, Pat::Periodic, Pat::Runs, Pat::Random, Pat::Skewed, Pat::Sorted, Pat::SortedDesc];
+
+        #[derive(Serialize, Deserialize, Debug, Clone)]
+        pub struct Case {
+            pub n: u32,
+            pub pat: Pat,
+            pub seed: u64,
+        }
+
+        /// (symbol indices into SYMS, longest run of equal symbols)
+        pub fn expand(c: &Case) -> Vec<u8> {
+            let n = c.n as usize;
+            let mut rng = Rng::new(c.seed);
+            let mut t: Vec<u8> = Vec::with_capacity(n);
+            match c.pat {
+                Pat::Homopolymer => t.resize(n, (c.seed % 6) as u8),
+                Pat::Periodic => t.extend((0..n).map(|i| (i % 6) as u8)),
+                Pat::Runs => {
+                    let mut sym = (c.seed % 6) as u8;
+                    while t.len() < n {
+                        let l = (run_len(&mut rng, 32) as usize).min(n - t.len());
+                        let cur = t.len();
+                        t.resize(cur + l, sym);
+                        sym = (sym + 1 + rng.below(5) as u8) % 6;
+                    }
+                }
+                Pat::Random => t.extend((0..n).map(|_| rng.below(6) as u8)),
+                Pat::Skewed => {
+                    let main = (c.seed % 6) as u8;
+                    t.extend((0..n).map(|_| if rng.below(100) == 0 { rng.below(6) as u8 } else { main }));
+                }
+                Pat::Sorted | Pat::SortedDesc => {
+                    for i in 0..n {
+                        let b = (i * 6 / n) as u8;
+                        t.push(if c.pat == Pat::Sorted { b } else { 5 - b });
+                    }
+                }
+            }
+            t
+        }
+
+        pub fn check(c: &Case) -> R {
+            watched(serde_json::to_string(c).unwrap_or_default(), || check_inner(c))
+        }
+
+        fn check_inner(c: &Case) -> R {
+            let n = c.n as usize;
+            ensure!(n >= 1 && n <= (1 << 21), "harness: n {} outside 1..=2^21", n);
+            let idx = expand(c);
+            let text: Vec<u8> = idx.iter().map(|&i| SYMS[i as usize]).collect();
+            let wm = WaveletMatrix::new(&text);
+            let mut rng = Rng::new(c.seed ^ 0x77);
+            // run boundaries are interesting positions
+            let mut run_starts: Vec<u64> = Vec::new();
+            let (mut longest, mut cur) = (0usize, 0usize);
+            for i in 0..n {
+                if i > 0 && idx[i] != idx[i - 1] {
+                    if run_starts.len() < 300 {
+                        run_starts.push(i as u64);
+                    }
+                    cur = 0;
+                }
+                cur += 1;
+                longest = longest.max(cur);
+            }
+            let full = n <= 70_001;
+            let ps: Vec<u64> = if full { (0..n as u64).collect() } else { sample_positions(n as u64, &run_starts, &mut rng, 1500) };
+            let mut cnt = [0u64; 6];
+            let mut next = 0usize;
+            for (p, &x) in idx.iter().enumerate() {
+                cnt[x as usize] += 1;
+                if next < ps.len() && ps[next] == p as u64 {
+                    next += 1;
+                    for (ci, &sym) in SYMS.iter().enumerate() {
+                        let got = wm.rank(sym, p as u64);
+                        ensure!(got == cnt[ci], "WaveletMatrix::rank({:?}, {}) = {}, expected {}; text length {} {:?}", sym as char, p, got, cnt[ci], n, c);
+                    }
+                }
+            }
+            ensure!(next == ps.len(), "harness: not all sampled positions visited");
+            let distinct = cnt.iter().filter(|&&x| x > 0).count();
+            let mut pass = Pass::new(n > 32);
+            if is_ladder(n as u64) {
+                pass.add(lab("text length", n as u64));
+            }
+            for l in [255usize, 4095, 65_535, 131_071, 1 << 19] {
+                if longest > l {
+                    pass.add(intern(format!("run of equal symbols > {}", l)));
+                }
+            }
+            for (ci, &x) in cnt.iter().enumerate() {
+                if x > 65_535 {
+                    pass.add(intern(format!("more than 65535 occurrences of {}", SYMS[ci] as char)));
+                }
+            }
+            pass.add_if(n > 65_536, "text length > 65536");
+            pass.add_if(n >= 1 << 20, "text length >= 2^20");
+            pass.add_if(distinct == 6, "all six symbols");
+            pass.add_if(distinct == 1, "single symbol");
+            pass.add_if(full, "rank at every position");
+            pass.add_if(!full, "rank at sampled positions");
+            pass.add(match c.pat {
+                Pat::Homopolymer => "pattern homopolymer",
+                Pat::Periodic => "pattern periodic",
+                Pat::Runs => "pattern runs",
+                Pat::Random => "pattern random",
+                Pat::Skewed => "pattern skewed",
+                Pat::Sorted => "pattern sorted",
+                Pat::SortedDesc => "pattern sorted descending",
+            });
+            Ok(pass)
+        }
+
+        pub fn enumerate(t: Tier) -> Box<dyn Iterator<Item = Case>> {
+            let mut v = Vec::new();
+            let mut q = 0u64;
+            let reps: u64 = if t == Tier::Quick { 1 } else { 4 };
+            for rep in 0..reps {
+                for (i, &n) in LADDER.iter().enumerate() {
+                    let npat = if t == Tier::Thorough {
+                        7
+                    } else if n <= 131_073 {
+                        4
+                    } else {
+                        3
+                    };
+                    for j in 0..npat {
+                        q += 1;
+                        // homopolymer and runs at every length; the others rotate
+                        let pat = match j {
+                            0 => Pat::Homopolymer,
+                            1 => Pat::Runs,
+                            _ => [Pat::Periodic, Pat::Random, Pat::Skewed, Pat::Sorted, Pat::SortedDesc][(i * 2 + j + rep as usize) % 5],
+                        };
+                        v.push(Case { n: n as u32, pat, seed: 0x3a7 + q * 6007 + rep * 86_028_121 });
+                    }
+                }
+            }
+            Box::new(v.into_iter())
+        }
+
+        pub fn strat(_t: Tier) -> BoxedStrategy<Case> {
+            let near_n: Vec<u64> = LADDER.iter().copied().filter(|&v| v <= 131_073).collect();
+            let n = prop_oneof![
+                4 => 1000u32..=60_000,
+                3 => (proptest::sample::select(near_n), -3i64..=3).prop_map(|(v, d)| (v as i64 + d) as u32),
+                1 => 100_000u32..=600_000,
+            ];
+            (n, proptest::sample::select(PATS.to_vec()), any::<u64>()).prop_map(|(n, pat, seed)| Case { n, pat, seed }).boxed()
+        }
+
+        pub fn must() -> &'static [&'static str] {
+            let mut v = labels("text length", &LADDER);
+            v.extend([
+                "run of equal symbols > 65535",
+                "run of equal symbols > 524288",
+                "more than 65535 occurrences of A",
+                "more than 65535 occurrences of C",
+                "more than 65535 occurrences of G",
+                "more than 65535 occurrences of T",
+                "more than 65535 occurrences of N",
+                "more than 65535 occurrences of $",
+                "all six symbols",
+                "single symbol",
+                "rank at every position",
+                "rank at sampled positions",
+            ]);
+            leak_list(v)
+        }
+    }
+}
+
 pub fn property() -> Property {
     Property {
         id: "C17",
-        rule: "rank-select: k from {1, 2..=4, 5..=12, 13..=40}; n from 1..=10, 1..=100, 32k*j+{-1,0,1} (j<=5), 8j+{-1,0,1}, 1..=3000; bits all-zero, all-one, density 1/50/99 %, per-superblock or per-byte chunks that are all-zero/all-one/random, or at most three bits flipped on a constant background. For every i<n rank_1/rank_0/get are compared with running counts, for i>=n (n, n+1, padded tail, next byte, next superblock) they must be None, select_1/select_0(j) for every j in 0..=n+1 are compared with the positions of the j-th one/zero (None for j=0 and j>count). Exhaustive: every bit vector of length 1..=10 (thorough 16) for k=1,2. wavelet: texts over ACGTN$ of length 1..=10, 1..=100, 32j+{-1,0,1}, 1..=400 with uniform, subset and skewed symbol distributions; WaveletMatrix::rank(c,p) for all six symbols and every p against running counts; exhaustive: all texts of length 1..=5 (thorough 7). Non-trivial = n > 32k (more than one superblock) resp. text longer than 32 with at least two distinct symbols; distinct = distinct serialised case.",
+        rule: "rank-select: k from {1, 2..=4, 5..=12, 13..=40}; n from 1..=10, 1..=100, 32k*j+{-1,0,1} (j<=5), 8j+{-1,0,1}, 1..=3000; bits all-zero, all-one, density 1/50/99 %, per-superblock or per-byte chunks that are all-zero/all-one/random, or at most three bits flipped on a constant background. For every i<n rank_1/rank_0/get are compared with running counts, for i>=n (n, n+1, padded tail, next byte, next superblock) they must be None, select_1/select_0(j) for every j in 0..=n+1 are compared with the positions of the j-th one/zero (None for j=0 and j>count). Exhaustive: every bit vector of length 1..=10 (thorough 16) for k=1,2. wavelet: texts over ACGTN$ of length 1..=10, 1..=100, 32j+{-1,0,1}, 1..=400 with uniform, subset and skewed symbol distributions; WaveletMatrix::rank(c,p) for all six symbols and every p against running counts; exhaustive: all texts of length 1..=5 (thorough 7). Non-trivial = n > 32k (more than one superblock) resp. text longer than 32 with at least two distinct symbols; distinct = distinct serialised case. Large-scale sub-checks (large-*): cases are generator parameters {n, k, pattern, seed} expanded with splitmix64; bit-vector length n over the ladder 255/256/257, 511..513, 1023..1025, 4095..4097, 8191..8193, 16383..16385, 32767..32769, 65535..65537, 70001, 131071..131073, 2^19+-1, 2^20+-1 and up to 2^22+1; superblock factor k over the same ladder up to 65537 (plus 2047..2049) with at least two superblocks; number of superblocks over the ladder up to 65537 and 131073; patterns all-ones, all-zeros, dense, sparse, random, periodic, runs (ladder lengths, superblock size +-1), zeros-then-ones, ones-then-zeros; the oracle is the list of positions of the ones/zeros; rank_1/rank_0/get at every position when n*32k is small, otherwise at first/last, every ladder value +-2, the probed superblock boundaries +-2 and random positions; select_1/select_0 at 0, 1, count-1..count+2, n, n+1, ladder values +-1, the counts at the probed superblock boundaries (+ 255..257, 65535..65537) and random arguments; aliases rank/select, k(), bits(). Wavelet matrix: text length over the ladder, patterns homopolymer, runs, periodic, random, skewed, sorted; rank for all six symbols at every position up to 70001 symbols, beyond that at first/last, ladder +-2, run boundaries +-2 and 1500 random positions against running counts.",
         assumptions: &["n >= 1, k >= 1; select arguments j within 0..=n+1 as quantified", "wavelet matrix texts use only the upper-case symbols A,C,G,T,N,$ and p < |text|"],
         subs: vec![
+            // the enumerated ladders are single long jobs: queued first so that they overlap with everything else
+            Box::new(ExhSub { name: "C17/large-rank-select-ladder", enumerate: large::rs::enumerate, check: large::rs::check, must_reach: large::rs::must() }),
+            Box::new(ExhSub { name: "C17/large-wavelet-ladder", enumerate: large::wm::enumerate, check: large::wm::check, must_reach: large::wm::must() }),
+            Box::new(PropSub {
+                name: "C17/large-rank-select-random",
+                quick: 320,
+                thorough: 6_400,
+                shards_quick: 8,
+                shards_thorough: 16,
+                strat: large::rs::strat,
+                check: large::rs::check,
+                must_reach: &["n > 65536", "superblock spans more than 65536 bits", "rank at every position", "rank at sampled positions"],
+                watch: true,
+            }),
+            Box::new(PropSub {
+                name: "C17/large-wavelet-random",
+                quick: 480,
+                thorough: 9_600,
+                shards_quick: 8,
+                shards_thorough: 16,
+                strat: large::wm::strat,
+                check: large::wm::check,
+                must_reach: &["text length > 65536", "run of equal symbols > 255"],
+                watch: true,
+            }),
             Box::new(PropSub {
                 name: "C17/rank-select",
                 quick: 160_000,
